@@ -5,6 +5,7 @@ import numpy as np
 
 from common import driver_batch, f2b, b2f
 
+USES_GENERATED = True     # Properties/C08.lean: programOk_* obligations over Generated/CreateVectors.lean
 SPECIES = ["A", "B", "C", "D"]
 PARAMS = ["k1", "k2", "k3"]
 VALS = [0.25, 0.5, 1.0, 1.5, 2.0, 3.0]
@@ -330,12 +331,19 @@ def run(ctx):
         history_case(ctx, gen_history(rng, 25 if ctx.quick() else 40))
     stale_interface(ctx, rng)
     reuse_with_delays(ctx, rng, 12 if ctx.quick() else 200)
+    # lineage models are models too: built one rule / event at a time (with initialisations and runs in between) they behave
+    # like the same definition built at once (the scenario is C19's; its containers are the LineageModel program above)
+    from props import C19
+    C19.incremental_lineage_models(ctx, rng, 8 if ctx.quick() else 120)
 
 
 def replay(ctx, obj):
     rep = obj.get("replay") or obj["broken"][0]["detail"]
     if "ops" in rep:
         history_case(ctx, rep["ops"])
+    elif "spec" in rep and "vol_rules" in rep.get("spec", {}):
+        from props import C19
+        C19.incremental_lineage_models(ctx, ctx.rng, 8)
     else:
         stale_interface(ctx, ctx.rng)
 
